@@ -239,4 +239,298 @@ Section Lin.
         destruct (Hnc1 x eq_refl) as [_ F]. exfalso. apply F. reflexivity.
   Qed.
 
+  (* ---------------------------------------------------------------- schedules of open sections *)
+  (* every step is not a release and leaves its thread holding a lock: steps of critical sections that are
+     still open at the end *)
+  Fixpoint open_run (s : state) (P : list tid) : Prop :=
+    match P with
+    | [] => True
+    | u :: P' =>
+        match stp s u, next_item s u with
+        | Some s1, Some iu => is_rel_item iu = false /\ held_of s1 u <> [] /\ open_run s1 P'
+        | _, _ => False
+        end
+    end.
+
+  Lemma open_run_seq P : forall (s s' : state), seq s s' -> open_run s P -> open_run s' P.
+  Proof.
+    induction P as [|u P IH]; intros s s' Hs H; cbn in *; [exact I|].
+    destruct (stp s u) as [s1|] eqn:E; [|contradiction].
+    destruct (step_seq s s' u s1 Hs E) as [s1' [E' Hs1]]. rewrite E'.
+    rewrite <- (next_item_seq s s' u Hs). destruct (next_item s u) as [iu|]; [|contradiction].
+    destruct H as [H1 [H2 H3]]. split; [exact H1|]. split.
+    - rewrite <- (held_of_seq s1 s1' u Hs1). exact H2.
+    - apply (IH s1 s1'); auto.
+  Qed.
+
+  Lemma run_app P Q : forall (s : state),
+    rn s (P ++ Q) = match rn s P with Some r => rn r Q | None => None end.
+  Proof.
+    induction P as [|u P IH]; intros s; cbn; [reflexivity|].
+    destruct (stp s u) as [s1|]; [apply IH|reflexivity].
+  Qed.
+
+  Lemma open_run_app P Q : forall (s r : state),
+    rn s P = Some r -> (open_run s (P ++ Q) <-> open_run s P /\ open_run r Q).
+  Proof.
+    induction P as [|u P IH]; intros s r H; cbn in *.
+    - inversion H. subst. tauto.
+    - destruct (stp s u) as [s1|] eqn:E; [|discriminate].
+      destruct (next_item s u) as [iu|]; [|tauto].
+      specialize (IH s1 r H). tauto.
+  Qed.
+
+  Lemma open_run_runs P : forall (s : state), open_run s P -> exists r, rn s P = Some r.
+  Proof.
+    induction P as [|u P IH]; intros s H; cbn in *; [eauto|].
+    destruct (stp s u) as [s1|]; [|contradiction]. destruct (next_item s u); [|contradiction].
+    apply IH. apply H.
+  Qed.
+
+  (* threads that step in an open schedule hold a lock at its end *)
+  Lemma open_run_holds P : forall (s r : state) u,
+    open_run s P -> rn s P = Some r -> In u P -> held_of r u <> [].
+  Proof.
+    induction P as [|v P IH]; intros s r u Ho Hr Hin; [contradiction|]. cbn in Ho, Hr.
+    destruct (stp s v) as [s1|] eqn:E; [|discriminate].
+    destruct (next_item s v) as [iv|]; [|contradiction]. destruct Ho as [H1 [H2 H3]].
+    destruct (in_dec Nat.eq_dec u P) as [HinP|HnP].
+    - apply (IH s1 r u); auto.
+    - destruct Hin as [->|Hin]; [|contradiction].
+      rewrite (held_of_nth s1 r u (run_frame P s1 r u Hr HnP)). exact H2.
+  Qed.
+
+  (* an open schedule has no commit events *)
+  Lemma open_run_commits P : forall (s : state), open_run s P -> cmts s P = [].
+  Proof.
+    induction P as [|u P IH]; intros s H; cbn in *; [reflexivity|].
+    destruct (stp s u) as [s1|]; [|contradiction]. destruct (next_item s u); [|contradiction].
+    destruct H as [H1 [H2 H3]]. destruct (held_of s1 u); [contradiction|]. apply IH. exact H3.
+  Qed.
+
+  (* ---------------------------------------------------------------- moving a step to the left *)
+  Lemma pull_left P : forall (s r r2 : state) t,
+    inv s -> rn s P = Some r -> open_run s P -> ~ In t P -> stp r t = Some r2 ->
+    exists s' r2', stp s t = Some s' /\ rn s' P = Some r2' /\ seq r2' r2 /\ open_run s' P.
+  Proof.
+    induction P as [|u P IH]; intros s r r2 t Hi Hr Ho Hn Ht; cbn in Hr.
+    - inversion Hr. subst r. exists r2, r2. cbn. split; [exact Ht|]. split; [reflexivity|].
+      split; [apply seq_refl|exact I].
+    - destruct (stp s u) as [s1|] eqn:Eu; [|discriminate].
+      cbn in Ho. rewrite Eu in Ho. destruct (next_item s u) as [iu|] eqn:Enu; [|contradiction].
+      destruct Ho as [Hrel [Hheld Ho]].
+      assert (Htu : t <> u) by (intro F; apply Hn; left; auto).
+      assert (HnP : ~ In t P) by (intro F; apply Hn; right; exact F).
+      destruct (IH s1 r r2 t (inv_step _ _ _ _ _ g false s u s1 Hi Eu) Hr Ho HnP Ht)
+        as [s1' [r2' [Ht1 [Hr1 [Hs1 Ho1]]]]].
+      assert (exists it, next_item s t = Some it) as [it Hnt].
+      { rewrite <- (next_item_nth s s1 t (step_frame s u s1 t Eu Htu)).
+        destruct (step_inv _ _ _ _ _ _ _ _ Ht1) as [th [it [rest [_ [_ [Hn1 [Htd _]]]]]]].
+        exists it. unfold next_item. rewrite Hn1, Htd. reflexivity. }
+      destruct (swap s u t s1 s1' iu it Hi Htu Enu Hnt Eu Ht1 (or_introl Hrel))
+        as [sa [sb [Hta [Hub Hsb]]]].
+      destruct (run_seq P s1' sb r2' (seq_sym _ _ Hsb) Hr1) as [r2'' [Hr2 Hs2]].
+      exists sa, r2''. split; [exact Hta|]. split; [cbn; rewrite Hub; exact Hr2|].
+      split; [apply (seq_trans _ r2'); [apply seq_sym; exact Hs2|exact Hs1]|].
+      cbn. rewrite Hub.
+      rewrite (next_item_nth s sa u (step_frame s t sa u Hta (not_eq_sym Htu))). rewrite Enu.
+      split; [exact Hrel|]. split.
+      + rewrite (held_of_seq sb s1' u Hsb).
+        rewrite (held_of_nth s1 s1' u (step_frame s1 t s1' u Ht1 (not_eq_sym Htu))). exact Hheld.
+      + apply (open_run_seq P s1' sb (seq_sym _ _ Hsb)). exact Ho1.
+  Qed.
+
+  (* ---------------------------------------------------------------- sifting one thread's steps to the front *)
+  Definition only (t : tid) (P : list tid) : list tid := filter (Nat.eqb t) P.
+  Definition without (t : tid) (P : list tid) : list tid := filter (fun u => negb (Nat.eqb t u)) P.
+
+  Lemma without_notin t P : ~ In t (without t P).
+  Proof.
+    unfold without. intro H. apply filter_In in H. destruct H as [_ H]. rewrite Nat.eqb_refl in H. discriminate.
+  Qed.
+
+  Lemma only_all t P : forall u, In u (only t P) -> u = t.
+  Proof.
+    unfold only. intros u H. apply filter_In in H. destruct H as [_ H]. apply Nat.eqb_eq in H. auto.
+  Qed.
+
+  Lemma only_without_perm t P : Permutation (only t P ++ without t P) P.
+  Proof.
+    induction P as [|u P IH]; cbn; [constructor|].
+    destruct (Nat.eqb t u) eqn:E; cbn.
+    - constructor. exact IH.
+    - apply Permutation_sym. apply Permutation_cons_app. apply Permutation_sym. exact IH.
+  Qed.
+
+  Lemma only_snoc t P u : only t (P ++ [u]) = if Nat.eqb t u then only t P ++ [u] else only t P.
+  Proof. unfold only. rewrite filter_app. cbn. destruct (Nat.eqb t u); [reflexivity|apply app_nil_r]. Qed.
+
+  Lemma without_snoc t P u : without t (P ++ [u]) = if Nat.eqb t u then without t P else without t P ++ [u].
+  Proof. unfold without. rewrite filter_app. cbn. destruct (Nat.eqb t u); cbn; [apply app_nil_r|reflexivity]. Qed.
+
+  Lemma sift t P : forall (s r : state),
+    inv s -> rn s P = Some r -> open_run s P ->
+    exists sm r', rn s (only t P) = Some sm /\ rn sm (without t P) = Some r' /\ seq r' r /\
+                  open_run s (only t P) /\ open_run sm (without t P).
+  Proof.
+    induction P as [|u P IH] using rev_ind; intros s r Hi Hr Ho.
+    - cbn in Hr. inversion Hr. subst. exists r, r. cbn. repeat split; auto.
+    - rewrite run_app in Hr. destruct (rn s P) as [rp|] eqn:Ep; [|discriminate].
+      apply (open_run_app P [u] s rp Ep) in Ho. destruct Ho as [HoP Hou].
+      destruct (IH s rp Hi Ep HoP) as [sm [r' [H1 [H2 [H3 [H4 H5]]]]]].
+      cbn in Hr. destruct (stp rp u) as [rpu|] eqn:Eu; [|discriminate]. inversion Hr. subst rpu.
+      destruct (step_seq rp r' u r (seq_sym _ _ H3) Eu) as [r1 [Eu' Hs1]].
+      rewrite only_snoc, without_snoc. destruct (Nat.eqb t u) eqn:Etu.
+      + (* a step of t: pull it left past the other threads' steps *)
+        apply Nat.eqb_eq in Etu. subst u.
+        assert (Hism : inv sm) by (apply (inv_run _ _ _ _ _ g false (only t P) s sm Hi H1)).
+        destruct (pull_left (without t P) sm r' r1 t Hism H2 H5 (without_notin t P) Eu')
+          as [sm' [r2' [Ha [Hb [Hc Hd]]]]].
+        exists sm', r2'. split; [rewrite run_app, H1; cbn; rewrite Ha; reflexivity|].
+        split; [exact Hb|]. split; [apply (seq_trans _ r1); [exact Hc|apply seq_sym; exact Hs1]|].
+        split; [|exact Hd].
+        apply (open_run_app (only t P) [t] s sm H1). split; [exact H4|].
+        cbn. rewrite Ha.
+        (* t's record in sm equals its record in rp (up to the equivalence), as nobody else touched it *)
+        assert (Hnth : nth_error (threads sm) t = nth_error (threads rp) t).
+        { rewrite <- (run_frame (without t P) sm r' t H2 (without_notin t P)).
+          destruct H3 as [H3 _]. rewrite H3. reflexivity. }
+        rewrite (next_item_nth rp sm t Hnth).
+        cbn in Hou. rewrite Eu in Hou. destruct (next_item rp t) as [it|]; [|contradiction].
+        destruct Hou as [Hr1 [Hr2 _]]. split; [exact Hr1|]. split; [|exact I].
+        rewrite (held_of_nth r2' sm' t).
+        * rewrite (held_of_seq r2' r1 t Hc). rewrite <- (held_of_seq r r1 t Hs1). exact Hr2.
+        * symmetry. apply (run_frame (without t P) sm' r2' t Hb (without_notin t P)).
+      + (* a step of another thread stays at the end *)
+        exists sm, r1. split; [exact H1|]. split; [rewrite run_app, H2; cbn; rewrite Eu'; reflexivity|].
+        split; [apply seq_sym; exact Hs1|]. split; [exact H4|].
+        apply (open_run_app (without t P) [u] sm r' H2). split; [exact H5|].
+        apply (open_run_seq [u] rp r' (seq_sym _ _ H3)). exact Hou.
+  Qed.
+
+  (* ---------------------------------------------------------------- serial runs *)
+  Lemma serial_app C D : forall (s sC : state),
+    rn s C = Some sC -> (srl s (C ++ D) <-> srl s C /\ srl sC D).
+  Proof.
+    induction C as [|t C IH]; intros s sC H; cbn in *.
+    - inversion H. subst. tauto.
+    - destruct (stp s t) as [s1|]; [|discriminate]. specialize (IH s1 sC H). tauto.
+  Qed.
+
+  Lemma commits_app C D : forall (s sC : state),
+    rn s C = Some sC -> cmts s (C ++ D) = cmts s C ++ cmts sC D.
+  Proof.
+    induction C as [|t C IH]; intros s sC H; cbn in *.
+    - inversion H. reflexivity.
+    - destruct (stp s t) as [s1|] eqn:E; [|discriminate].
+      destruct (next_item s t) as [it|] eqn:En.
+      + destruct (held_of s1 t); cbn; rewrite (IH s1 sC H); reflexivity.
+      + exfalso. destruct (step_inv _ _ _ _ _ _ _ _ E) as [th [it [rest [_ [_ [Hn [Htd _]]]]]]].
+        unfold next_item in En. rewrite Hn, Htd in En. discriminate.
+  Qed.
+
+  (* steps of one thread from a quiescent state form a serial schedule *)
+  Lemma serial_own t B : forall (s r : state),
+    (forall u, u <> t -> held_of s u = []) -> (forall u, In u B -> u = t) -> rn s B = Some r ->
+    srl s B /\ (forall u, u <> t -> held_of r u = []).
+  Proof.
+    induction B as [|v B IH]; intros s r Hq Hall Hr; cbn in *.
+    - inversion Hr. subst. auto.
+    - assert (v = t) by (apply Hall; left; reflexivity). subst v.
+      destruct (stp s t) as [s1|] eqn:E; [|discriminate].
+      assert (Hq1 : forall u, u <> t -> held_of s1 u = []).
+      { intros u Hu. rewrite (held_of_nth s s1 u (step_frame s t s1 u E Hu)). apply Hq. exact Hu. }
+      destruct (IH s1 r Hq1 (fun u Hu => Hall u (or_intror Hu)) Hr) as [H1 H2].
+      split; [|exact H2]. split; [exact Hq|exact H1].
+  Qed.
+
+  (* ---------------------------------------------------------------- the reduction theorem *)
+  Lemma held_after_release (s : state) t s1 it :
+    inv s -> next_item s t = Some it -> stp s t = Some s1 -> held_of s1 t <> [] -> is_rel_item it = false.
+  Proof.
+    intros [Hf _] Hn H Hh. destruct (step_inv _ _ _ _ _ _ _ _ H) as [th [it' [rest [th' [w [Hnth [Htd [He ->]]]]]]]].
+    assert (it' = it) by (unfold next_item in Hn; rewrite Hnth, Htd in Hn; inversion Hn; reflexivity). subst it'.
+    destruct it as [tag|[l md|l md|x|x| | |]|]; try reflexivity. exfalso. apply Hh.
+    unfold held_of. cbn. rewrite (nth_error_set_nth_eq _ _ _ _ Hnth).
+    destruct (Forall_nth_error _ _ _ _ Hf Hnth) as [h [Hhl Hd]]. rewrite Htd in Hd. cbn in Hd.
+    destruct h as [e|]; [|discriminate]. destruct (entry_eqb (l, md) e) eqn:Ee; [|discriminate].
+    apply exec_item_held in He. cbn in He. rewrite Hhl in He. cbn in He. rewrite Ee in He. inversion He. reflexivity.
+  Qed.
+
+  Theorem reduction tr : forall (s0 s : state),
+    inv s0 -> quiescent s0 -> rn s0 tr = Some s ->
+    exists C P sC r,
+      rn s0 C = Some sC /\ srl s0 C /\ quiescent sC /\ cmts s0 C = cmts s0 tr /\
+      rn sC P = Some r /\ seq r s /\ open_run sC P /\ Permutation (C ++ P) tr.
+  Proof.
+    induction tr as [|t tr IH] using rev_ind; intros s0 s Hi Hq Hr.
+    - cbn in Hr. inversion Hr. subst s. exists [], [], s0, s0. cbn.
+      repeat split; auto.
+    - rewrite run_app in Hr. destruct (rn s0 tr) as [sp|] eqn:Ep; [|discriminate].
+      cbn in Hr. destruct (stp sp t) as [sn|] eqn:Et; [|discriminate]. inversion Hr. subst sn. clear Hr.
+      destruct (IH s0 sp Hi Hq Ep) as [C [P [sC [r [HC [Hser [HqC [Hcm [HP [Hseq [Hop Hperm]]]]]]]]]]].
+      destruct (step_seq sp r t s (seq_sym _ _ Hseq) Et) as [rn' [Et' Hsn]].
+      assert (HiC : inv sC) by (apply (inv_run _ _ _ _ _ g false C s0 sC Hi HC)).
+      assert (Hir : inv r) by (apply (inv_run _ _ _ _ _ g false P sC r HiC HP)).
+      assert (exists it, next_item sp t = Some it) as [it Hnt].
+      { destruct (step_inv _ _ _ _ _ _ _ _ Et) as [th [it [rest [_ [_ [Hn1 [Htd _]]]]]]].
+        exists it. unfold next_item. rewrite Hn1, Htd. reflexivity. }
+      assert (Hcm_tr : cmts s0 (tr ++ [t]) =
+                       cmts s0 tr ++ match held_of s t with [] => [(t, it)] | _ => [] end).
+      { rewrite (commits_app tr [t] s0 sp Ep). cbn. rewrite Et, Hnt. destruct (held_of s t); reflexivity. }
+      destruct (held_of s t) as [|e hs] eqn:Ehs.
+      + (* a commit step: serialise t's open section (if any), then this step *)
+        destruct (sift t P sC r HiC HP Hop) as [sm [r' [H1 [H2 [H3 [H4 H5]]]]]].
+        destruct (step_seq r r' t rn' (seq_sym _ _ H3) Et') as [r1 [Et1 Hs1]].
+        assert (Hism : inv sm) by (apply (inv_run _ _ _ _ _ g false (only t P) sC sm HiC H1)).
+        destruct (pull_left (without t P) sm r' r1 t Hism H2 H5 (without_notin t P) Et1)
+          as [sm' [r2' [Ha [Hb [Hc Hd]]]]].
+        assert (Hnth_m : nth_error (threads sm) t = nth_error (threads sp) t).
+        { rewrite <- (run_frame (without t P) sm r' t H2 (without_notin t P)).
+          destruct H3 as [H3 _]. rewrite H3. destruct Hseq as [Hseq _]. rewrite Hseq. reflexivity. }
+        assert (Hheld_m' : held_of sm' t = []).
+        { rewrite (held_of_nth r2' sm' t).
+          - rewrite (held_of_seq r2' r1 t Hc). rewrite <- (held_of_seq rn' r1 t Hs1).
+            rewrite <- (held_of_seq s rn' t Hsn). exact Ehs.
+          - symmetry. apply (run_frame (without t P) sm' r2' t Hb (without_notin t P)). }
+        destruct (serial_own t (only t P ++ [t]) sC sm') as [Hso Hqo].
+        { intros u _. apply HqC. }
+        { intros u Hu. apply in_app_or in Hu. destruct Hu as [Hu|[Hu|[]]]; [apply (only_all t P u Hu)|auto]. }
+        { rewrite run_app, H1. cbn. rewrite Ha. reflexivity. }
+        exists (C ++ only t P ++ [t]), (without t P), sm', r2'.
+        split; [rewrite run_app, HC, run_app, H1; cbn; rewrite Ha; reflexivity|].
+        split; [apply (serial_app C _ s0 sC HC); split; [exact Hser|exact Hso]|].
+        split.
+        { intro u. destruct (Nat.eq_dec u t) as [->|Hu]; [exact Hheld_m'|apply Hqo; exact Hu]. }
+        split.
+        { rewrite Hcm_tr. rewrite (commits_app C _ s0 sC HC). rewrite Hcm. f_equal.
+          rewrite (commits_app (only t P) [t] sC sm H1). rewrite (open_run_commits _ _ H4). cbn.
+          rewrite Ha. rewrite (next_item_nth sp sm t Hnth_m), Hnt. rewrite Hheld_m'. reflexivity. }
+        split; [exact Hb|].
+        split; [apply (seq_trans _ r1); [exact Hc|]; apply (seq_trans _ rn'); [apply seq_sym; exact Hs1|apply seq_sym; exact Hsn]|].
+        split; [exact Hd|].
+        rewrite <- app_assoc. rewrite <- app_assoc. cbn.
+        apply (Permutation_trans (l' := C ++ (only t P ++ without t P) ++ [t])).
+        { apply Permutation_app_head. rewrite <- app_assoc. apply Permutation_app_head.
+          apply Permutation_sym. change (t :: without t P) with ([t] ++ without t P). apply Permutation_app_comm. }
+        rewrite app_assoc. apply Permutation_app_tail.
+        apply (Permutation_trans (l' := C ++ P)); [|exact Hperm].
+        apply Permutation_app_head. apply only_without_perm.
+      + (* the thread still holds a lock afterwards: the step joins the open part *)
+        assert (Hnr : is_rel_item it = false).
+        { apply (held_after_release sp t s it); auto.
+          - apply (inv_run _ _ _ _ _ g false tr s0 sp Hi Ep).
+          - rewrite Ehs. discriminate. }
+        exists C, (P ++ [t]), sC, rn'.
+        split; [exact HC|]. split; [exact Hser|]. split; [exact HqC|].
+        split; [rewrite Hcm_tr, app_nil_r; exact Hcm|].
+        split; [rewrite run_app, HP; cbn; rewrite Et'; reflexivity|].
+        split; [apply seq_sym; exact Hsn|].
+        split.
+        { apply (open_run_app P [t] sC r HP). split; [exact Hop|]. cbn. rewrite Et'.
+          rewrite <- (next_item_seq sp r t (seq_sym _ _ Hseq)) , Hnt.
+          split; [exact Hnr|]. split; [|exact I]. rewrite <- (held_of_seq s rn' t Hsn), Ehs. discriminate. }
+        rewrite app_assoc. apply Permutation_app_tail. exact Hperm.
+  Qed.
+
 End Lin.
